@@ -65,7 +65,9 @@ class IntervalInterp:
                 if op in ('add', 'sub', 'mul', 'udiv', 'urem', 'and', 'or', 'xor', 'shl', 'lshr'):
                     a, b = V(0), V(1)
                     if op == 'sub':
-                        r = (a[0] - b[1], a[1] - b[0]) if a[0] >= b[1] else full(w)
+                        if a[0] >= b[1]: r = (a[0] - b[1], a[1] - b[0])
+                        elif a[1] < b[0]: r = (a[0] - b[1] + (1 << w), a[1] - b[0] + (1 << w))       # wraps for every pair of values
+                        else: r = full(w)
                     elif op == 'add':
                         r = (a[0] + b[0], a[1] + b[1]) if a[1] + b[1] <= M else full(w)
                     elif op == 'mul':
@@ -115,11 +117,22 @@ class IntervalInterp:
                     else: raise IUnmodelled('sext of possibly negative interval at %s' % i.loc)
                 elif op == 'icmp':
                     a, b = V(0), V(1); p = i.d['pred']; ob = i.d['op_bits']
-                    if p in ('slt', 'sle', 'sgt', 'sge'):
-                        if a[1] < (1 << (ob - 1)) and b[1] < (1 << (ob - 1)): p = {'slt': 'ult', 'sle': 'ule', 'sgt': 'ugt', 'sge': 'uge'}[p]
-                        else: raise IUnmodelled('signed comparison of possibly negative intervals at %s' % i.loc)
                     t = fl = False
-                    if p == 'eq': t = a[0] == a[1] == b[0] == b[1]; fl = a[1] < b[0] or b[1] < a[0]
+                    if p in ('slt', 'sle', 'sgt', 'sge'):
+                        H = 1 << (ob - 1)
+                        def sgn(x):
+                            # interval of signed values, or None when it straddles the sign boundary
+                            if x[1] < H: return x
+                            if x[0] >= H: return (x[0] - 2 * H, x[1] - 2 * H)
+                            return None
+                        sa_, sb_ = sgn(a), sgn(b)
+                        if sa_ is None or sb_ is None:
+                            p = None          # undecided: both outcomes are explored (sound)
+                        else:
+                            a, b = sa_, sb_
+                            p = {'slt': 'ult', 'sle': 'ule', 'sgt': 'ugt', 'sge': 'uge'}[p]      # same ordering formulas on the signed values
+                    if p is None: pass
+                    elif p == 'eq': t = a[0] == a[1] == b[0] == b[1]; fl = a[1] < b[0] or b[1] < a[0]
                     elif p == 'ne': fl = a[0] == a[1] == b[0] == b[1]; t = a[1] < b[0] or b[1] < a[0]
                     elif p == 'ult': t = a[1] < b[0]; fl = a[0] >= b[1]
                     elif p == 'ule': t = a[1] <= b[0]; fl = a[0] > b[1]
